@@ -47,6 +47,8 @@ pub fn search(rng: &mut Rng, budget: u64, fails: &mut Vec<Failure>) {
         let (y, m) = (rng.range(-200_000, 200_000) as i32, rng.range(1, 12) as u8);
         // the hidden reference day (only the low-level constructor can choose one) must not influence the arithmetic
         let refday = match rng.next() % 3 { 0 => None, 1 => Some(rng.range(28, 31) as u8), _ => Some(rng.range(1, 28) as u8) };
+        crate::c11::ymmd_canonical(y as i64, m, refday.unwrap_or(1).min(28), fails);
+        if fails.len() >= 5 { return; }
         let Ok(ym) = PlainYearMonth::new_with_overflow(y, m, refday, Calendar::default(), ArithmeticOverflow::Constrain) else { continue };
         let ov = if rng.next() % 2 == 0 { ArithmeticOverflow::Constrain } else { ArithmeticOverflow::Reject };
         let (dy, dm) = (rng.range(-50, 50), rng.range(-40, 40));
